@@ -14,7 +14,7 @@ ASSUME TLCSet(2, ndJsonDeserialize(IOEnv.TRACE))
 Tr    == TLCGet(2)
 ASSUME TLCSet(3, [p \in 1..Len(Plats) |-> Aux(Plats[p])])
 AUX   == TLCGet(3)
-ASSUME TLCSet(4, IF IOEnv.DEV = "known" THEN {"uprev", "djkrev"} ELSE {})
+ASSUME TLCSet(4, IF IOEnv.DEV = "known" THEN {"uprev", "djkrev", "nohbypx"} ELSE {})
 Dev   == TLCGet(4)
 
 VARIABLES i, k, st
